@@ -32,8 +32,8 @@ PROBES = ["source_A", "source_B", "random_solver", "chunk_with_2plus_tasks", "wo
           "more_workers_than_chunks", "stopped_by_done_before_limit", "calibrated_against_real_pool",
           "fresh_image", "fork_image"]
 TIERS = {
-    "quick": {"runs": 1200, "wall": 50, "batch": 4, "shrink_s": 40},
-    "thorough": {"runs": 80000, "wall": 1200, "batch": 8, "shrink_s": 150},
+    "quick": {"runs": 4000, "wall": 40, "batch": 6, "shrink_s": 40},
+    "thorough": {"runs": 800000, "wall": 1200, "batch": 8, "shrink_s": 150},
 }
 CONT = {"SA": ["noisy_factory", "noisy_factory_square", "noisy_factory_exp", "noisy_factory_fixed"],
         "SAM": ["xos", "xos2", "xos12", "xs", "oxs", "xos_norm_additive", "xs3"]}
